@@ -2,7 +2,9 @@
     Only statements; each is closed by a lemma proved in Proofs/TextProofs.v about the
     executable model Model/Text.v of cooler.util.parse_region_string / parse_humanized /
     parse_region / parse_cooler_uri.  Strings are [list ascii]; [None] is the ValueError. *)
-From Cooler Require Import Model.Text Proofs.TextProofs.
+From Cooler Require Import Model.Extent Proofs.BinsProofs.
+From Cooler Require Proofs.ExtentProofs.
+From Cooler Require Import Model.Text Proofs.TextProofs Proofs.RegionIntegration.
 
 (** ---- formatting a region and parsing it back is the identity (all names, all coordinates) *)
 
@@ -340,6 +342,142 @@ Theorem C19_uri_group_rooted : forall s f g, parse_cooler_uri s = Some (f, g) ->
 Proof. exact uri_result_shape. Qed.
 Print Assumptions C19_uri_group_rooted.
 
+(** ---- C19 x C04: from a region STRING to the bins it selects (Proofs/RegionIntegration.v).
+    [names] is the chromosome-name list (distinct), [blocks] the bin table in chromosome blocks (C04/C20:
+    [ValidBlocks]); [extent_of_string] = Cooler.extent(str) = parse_region(str, chromsizes) followed by
+    region_to_extent on the index of the parsed name; [bins_fetch_string] = Cooler.bins().fetch(str). *)
+
+(** the bridge: a string fetch is the C19 parser followed by the C04 extent model *)
+Theorem C19_fetch_is_parse_then_extent : forall names blocks s, length names = length blocks ->
+  extent_of_string names blocks s =
+  match parse_region_string s with
+  | None => None
+  | Some (c, oa, ob) =>
+      match index_of c names with
+      | None => None
+      | Some i => Extent.extent blocks i oa ob
+      end
+  end.
+Proof. exact extent_of_string_eq. Qed.
+Print Assumptions C19_fetch_is_parse_then_extent.
+
+(** "name:s-e": exactly the bins of chromosome i that overlap [s, e), a non-empty run inside the
+    chromosome's span; bins().fetch returns exactly those rows *)
+Theorem C19_fetch_string_overlap : forall names blocks,
+  length names = length blocks -> NoDup names -> ValidBlocks blocks ->
+  forall name i blk s e,
+  name_ok_b name = true -> nth_error names i = Some name -> nth_error blocks i = Some blk ->
+  0 <= s < e -> e <= chrom_len blk ->
+  exists lo hi, extent_of_string names blocks (name ++ c_colon :: dec s ++ c_hyphen :: dec e) = Some (lo, hi) /\
+    (forall k : nat, lo <= Z.of_nat k < hi <->
+       exists x, nth_error (table blocks) k = Some x /\ bchrom x = Z.of_nat i /\ bstart x < e /\ s < bend x) /\
+    chrom_offset blocks i <= lo < hi /\ hi <= chrom_offset blocks (S i) /\
+    bins_fetch_string names blocks (name ++ c_colon :: dec s ++ c_hyphen :: dec e)
+      = Some (filter (overlaps_b i s e) (table blocks)).
+Proof. exact fetch_string_overlap. Qed.
+Print Assumptions C19_fetch_string_overlap.
+
+(** the same with thousands separators, any comma placement *)
+Theorem C19_fetch_string_overlap_commas : forall names blocks,
+  length names = length blocks -> NoDup names -> ValidBlocks blocks ->
+  forall name i blk s e cs ce,
+  name_ok_b name = true -> nth_error names i = Some name -> nth_error blocks i = Some blk ->
+  0 <= s < e -> e <= chrom_len blk ->
+  forallb is_digit_or_comma cs = true -> remove_commas cs = dec s ->
+  forallb is_digit_or_comma ce = true -> remove_commas ce = dec e ->
+  exists lo hi, extent_of_string names blocks (name ++ c_colon :: cs ++ c_hyphen :: ce) = Some (lo, hi) /\
+    (forall k : nat, lo <= Z.of_nat k < hi <->
+       exists x, nth_error (table blocks) k = Some x /\ bchrom x = Z.of_nat i /\ bstart x < e /\ s < bend x) /\
+    chrom_offset blocks i <= lo < hi /\ hi <= chrom_offset blocks (S i) /\
+    bins_fetch_string names blocks (name ++ c_colon :: cs ++ c_hyphen :: ce)
+      = Some (filter (overlaps_b i s e) (table blocks)).
+Proof. exact fetch_string_overlap_commas. Qed.
+Print Assumptions C19_fetch_string_overlap_commas.
+
+Theorem C19_fetch_string_overlap_grouped : forall names blocks,
+  length names = length blocks -> NoDup names -> ValidBlocks blocks ->
+  forall name i blk s e,
+  name_ok_b name = true -> nth_error names i = Some name -> nth_error blocks i = Some blk ->
+  0 <= s < e -> e <= chrom_len blk ->
+  bins_fetch_string names blocks (name ++ c_colon :: dec_commas s ++ c_hyphen :: dec_commas e)
+    = Some (filter (overlaps_b i s e) (table blocks)).
+Proof. exact fetch_string_overlap_grouped. Qed.
+Print Assumptions C19_fetch_string_overlap_grouped.
+
+(** bare name: exactly the chromosome's span of the table *)
+Theorem C19_fetch_bare_name : forall names blocks,
+  length names = length blocks -> NoDup names -> ValidBlocks blocks ->
+  forall name i blk,
+  name_ok_b name = true -> nth_error names i = Some name -> nth_error blocks i = Some blk ->
+  extent_of_string names blocks name = Some (chrom_offset blocks i, chrom_offset blocks (S i)).
+Proof. exact fetch_bare_name. Qed.
+Print Assumptions C19_fetch_bare_name.
+
+(** open end "name:s-": the bins of chromosome i overlapping [s, L_i) *)
+Theorem C19_fetch_open_end : forall names blocks,
+  length names = length blocks -> NoDup names -> ValidBlocks blocks ->
+  forall name i blk s,
+  name_ok_b name = true -> nth_error names i = Some name -> nth_error blocks i = Some blk ->
+  0 <= s < chrom_len blk ->
+  exists lo hi, extent_of_string names blocks (name ++ c_colon :: dec s ++ [c_hyphen]) = Some (lo, hi) /\
+    (forall k : nat, lo <= Z.of_nat k < hi <->
+       exists x, nth_error (table blocks) k = Some x /\ bchrom x = Z.of_nat i /\
+                 bstart x < chrom_len blk /\ s < bend x) /\
+    chrom_offset blocks i <= lo < hi /\ hi <= chrom_offset blocks (S i).
+Proof. exact fetch_open_end. Qed.
+Print Assumptions C19_fetch_open_end.
+
+(** refused strings never reach region_to_extent: reversed or beyond the end ... *)
+Theorem C19_fetch_refused : forall names blocks,
+  length names = length blocks -> NoDup names ->
+  forall name i blk s e,
+  name_ok_b name = true -> nth_error names i = Some name -> nth_error blocks i = Some blk ->
+  0 <= s -> 0 <= e -> (e < s \/ chrom_len blk < e) ->
+  parse_region (name ++ c_colon :: dec s ++ c_hyphen :: dec e) (Some (chromsizes_table names blocks)) = None /\
+  extent_of_string names blocks (name ++ c_colon :: dec s ++ c_hyphen :: dec e) = None.
+Proof. exact fetch_refused. Qed.
+Print Assumptions C19_fetch_refused.
+
+(** ... or an unknown name, however the rest of the string is written *)
+Theorem C19_fetch_unknown_name : forall names blocks,
+  length names = length blocks ->
+  forall str c oa ob,
+  parse_region_string str = Some (c, oa, ob) -> ~ In c names ->
+  parse_region str (Some (chromsizes_table names blocks)) = None /\
+  extent_of_string names blocks str = None.
+Proof. exact fetch_unknown_name. Qed.
+Print Assumptions C19_fetch_unknown_name.
+
+(** conversely, for EVERY string: region_to_extent is only ever reached with a known chromosome and
+    0 <= start <= end <= its length (the hypotheses of the C04 theorems) *)
+Theorem C19_fetch_reaches_extent_in_bounds : forall names blocks,
+  length names = length blocks ->
+  forall str r,
+  extent_of_string names blocks str = Some r ->
+  exists c oa ob i blk a b,
+    parse_region_string str = Some (c, oa, ob) /\ nth_error names i = Some c /\
+    nth_error blocks i = Some blk /\ 0 <= a <= b /\ b <= chrom_len blk /\
+    a = ExtentProofs.dflt 0 oa /\ b = ExtentProofs.dflt (chrom_len blk) ob /\
+    r = region_to_extent blocks i a b.
+Proof. exact fetch_reaches_extent_in_bounds. Qed.
+Print Assumptions C19_fetch_reaches_extent_in_bounds.
+
+(** ---- URI normal form (what C15's uri_slash relies on): parse, render "file::group", parse again *)
+Theorem C19_uri_normal_form : forall f g,
+  no_dcolon f = true -> last_notcolon f = true -> no_dcolon g = true ->
+  exists r, parse_cooler_uri (f ++ c_colon :: c_colon :: g) = Some r /\
+            r = (f, norm_group g) /\
+            parse_cooler_uri (render_uri r) = Some r.
+Proof. exact uri_normal_form. Qed.
+Print Assumptions C19_uri_normal_form.
+
+(** for EVERY accepted URI whose file part does not end in ':' *)
+Theorem C19_uri_render_idempotent : forall s r,
+  parse_cooler_uri s = Some r -> last_notcolon (fst r) = true ->
+  parse_cooler_uri (render_uri r) = Some r.
+Proof. exact uri_render_idempotent. Qed.
+Print Assumptions C19_uri_render_idempotent.
+
 (** ---- non-vacuity / regression examples (evaluated) *)
 Example ex_C19_D6_regression :
   parse_humanized (lit "1.001k") = Some 1001 /\
@@ -393,4 +531,19 @@ Example ex_C19_parse_region :
   parse_region (lit "chr 2:100-") cs = Some (lit "chr 2", 100, 500) /\
   parse_region (lit "chr3:1-2") cs = None /\
   parse_region (lit "chr1:5-") None = None.
+Proof. vm_compute. repeat split; reflexivity. Qed.
+
+Example ex_C19_fetch_string :
+  let names := [lit "chr1"; lit "a b"] in
+  let blocks := [[(0,0,10);(0,10,20);(0,20,25)]; [(1,0,7);(1,7,9)]] in
+  valid_blocks_b blocks = true /\ name_ok_b (lit "a b") = true /\
+  extent_of_string names blocks (lit "chr1:10-21") = Some (1, 3) /\
+  extent_of_string names blocks (lit "chr1:0.01k-0.021k") = Some (1, 3) /\
+  extent_of_string names blocks (lit "a b") = Some (3, 5) /\
+  extent_of_string names blocks (lit "a b:7-") = Some (4, 5) /\
+  bins_fetch_string names blocks (lit "a b:1-8") = Some [(1,0,7);(1,7,9)] /\
+  extent_of_string names blocks (lit "chr1:21-10") = None /\
+  extent_of_string names blocks (lit "chr1:0-26") = None /\
+  extent_of_string names blocks (lit "chr2:0-5") = None /\
+  render_uri (lit "a.cool", lit "/g") = lit "a.cool::/g".
 Proof. vm_compute. repeat split; reflexivity. Qed.
